@@ -569,7 +569,7 @@ def _solve(extra, timeout):
     return verdict, model, round(time.time() - t0, 2)
 
 
-def explore_visit_float(cfg, eb=11, sb=53, z3_timeout=60):
+def explore_visit_float(cfg, eb=11, sb=53, z3_timeout=60, budget_s=1e9):
     """Run the real Validator.visit_float on a symbolic double against a float schema whose declared parameters are
     symbolic doubles (cfg = (has_value, has_min, has_max, precision or None)).  Per path:
       * an exception on a feasible path violates C08 (totality);
@@ -583,6 +583,7 @@ def explore_visit_float(cfg, eb=11, sb=53, z3_timeout=60):
     E.round_lemma_uses = E.round_model_uses = 0
     F = E.F
     records = []
+    t_start = time.time()
     with _Shims():
         while True:
             E.reset()
@@ -614,6 +615,11 @@ def explore_visit_float(cfg, eb=11, sb=53, z3_timeout=60):
                 verdict, model, dt = _solve(assume + E.pc + [bad], z3_timeout)
                 records.append({"cfg": list(cfg), "decisions": list(E.decisions[:E.pos]), "outcome": outcome, "check": name,
                                 "verdict": verdict, "model": model, "solver_s": dt})
+            if time.time() - t_start > budget_s:
+                # never reported as success: the caller sees an 'unknown' record for the unexplored remainder
+                records.append({"cfg": list(cfg), "decisions": list(E.decisions[:E.pos]), "outcome": "exploration budget exhausted",
+                                "check": "budget", "verdict": "unknown", "model": None, "solver_s": 0.0})
+                break
             if not E.next_path():
                 break
     return records
@@ -657,7 +663,7 @@ def replay_visit_float(cfg, model):
     return acc == want, "validate(%r, %r): accepted=%s, semantics say %s" % (s, v, acc, want)
 
 
-def explore_substitute_float(cfg, eb=11, sb=53, z3_timeout=60, mode="usable"):
+def explore_substitute_float(cfg, eb=11, sb=53, z3_timeout=60, mode="usable", budget_s=1e9):
     """Run the real Substitutor.visit_float: R = S % v for symbolic doubles, then the real validator on R.
       C12: only SubstitutionError may escape; R must accept v (what it generates) and R % v must succeed again;
       C04: v conforms to S  =>  R accepts v;   C05: R accepts w => S accepts w  (w a second symbolic double)."""
@@ -669,6 +675,7 @@ def explore_substitute_float(cfg, eb=11, sb=53, z3_timeout=60, mode="usable"):
     E.round_lemma_uses = E.round_model_uses = 0
     F = E.F
     records = []
+    t_start = time.time()
     with _Shims():
         while True:
             E.reset()
@@ -694,6 +701,8 @@ def explore_substitute_float(cfg, eb=11, sb=53, z3_timeout=60, mode="usable"):
                     if pinned is None or not isinstance(pinned, SymFP):
                         checks.append(("result-has-no-float-value", z3.BoolVal(True)))
                     else:
+                        # C04: the result carries the substituted data (within the documented float tolerance)
+                        checks.append(("pinned-value-differs", z3.Not(t_isclose(pinned.t, v, F))))
                         gen_ok = not Validator().visit_float(R, value=pinned).get_errors()
                         if not gen_ok:
                             checks.append(("result-rejects-what-it-generates", z3.BoolVal(True)))
@@ -717,6 +726,11 @@ def explore_substitute_float(cfg, eb=11, sb=53, z3_timeout=60, mode="usable"):
                 verdict, model, dt = _solve(assume + E.pc + [bad], z3_timeout)
                 records.append({"cfg": list(cfg), "decisions": list(E.decisions[:E.pos]), "outcome": outcome, "check": name,
                                 "verdict": verdict, "model": model, "solver_s": dt})
+            if time.time() - t_start > budget_s:
+                # never reported as success: the caller sees an 'unknown' record for the unexplored remainder
+                records.append({"cfg": list(cfg), "decisions": list(E.decisions[:E.pos]), "outcome": "exploration budget exhausted",
+                                "check": "budget", "verdict": "unknown", "model": None, "solver_s": 0.0})
+                break
             if not E.next_path():
                 break
     return records
@@ -747,6 +761,8 @@ def replay_substitute_float(cfg, model, check):
         except SubstitutionError:
             ok = validate(s, v).has_errors()
             return ok, "substitute(%r, %r) raised SubstitutionError; value conforms to S: %s" % (s, v, not ok)
+        if not _m.isclose(r.props.value, v):
+            return False, "%r %% %r pins %r instead of the substituted value" % (s, v, r.props.value)
         if validate(r, v).has_errors():
             return False, "%r %% %r = %r rejects %r" % (s, v, r, v)
         if validate(r, r.props.value).has_errors():
